@@ -141,6 +141,10 @@ impl TransportVisitor for V {
                 op!("flush", g.flush());
                 op!("setup_cursor", g.setup_cursor(&vec![0u8; 64 * 64 * 4], 1, 2, 3, 4));
                 op!("move_cursor", g.move_cursor(5, 6));
+                op!("move_cursor#2", g.move_cursor(7, 8));
+                op!("move_cursor#3", g.move_cursor(9, 10));
+                op!("move_cursor#4", g.move_cursor(11, 12));
+                op!("flush#2", g.flush());
             }
             AnyDriver::Input(i) => {
                 fill(0, &[1, 0, 2, 0, 3, 0, 0, 0]);
@@ -323,9 +327,12 @@ impl TransportVisitor for V {
 pub fn run_driver_notify(kind: Kind, tkind: TKind) {
     hal::reset();
     let event_idx = choose(2, "event index negotiated") == 1;
+    // Indirect descriptors are independent of the notification mechanism; a driver that mixes the
+    // two up per queue shows only when exactly one of them is negotiated.
+    let indirect = choose(2, "indirect descriptors negotiated") == 1;
     let nq = kind.driver_queues().len();
     let mask = choose(1 << nq, "set of queues with notifications suppressed");
-    let offered = F_VERSION_1 | if event_idx { F_EVENT_IDX } else { 0 } | kind.device_specific_supported();
+    let offered = F_VERSION_1 | if event_idx { F_EVENT_IDX } else { 0 } | if indirect { crate::drivers::F_INDIRECT } else { 0 } | kind.device_specific_supported();
     let w = DWorld::new(kind, tkind, offered, kind.default_config());
     w.with_transport(V { mask, event_idx });
     mmio::set_handler(None);
